@@ -156,7 +156,7 @@ int N2kUTF8ToUCS2(const char *str, unsigned char *buf, int bufLen) {
   int Len=0;
   const unsigned char* UTF8Chars=(const unsigned char *)str;
   size_t usedBytes=1;
-  for ( ; *UTF8Chars!=0 && Len<bufLen-2; UTF8Chars+=usedBytes, Len+=2 ) {
+  for ( ; *UTF8Chars!=0 && Len+2<=bufLen; UTF8Chars+=usedBytes, Len+=2 ) {
     uint16_t ucs2Char;
     if ( (*UTF8Chars & 0x80) == 0x00 ) {
       *buf=*UTF8Chars;
